@@ -53,7 +53,9 @@ ElemWhy(o, op, rhs, res) ==
   ELSE IF op \in {"rmul", "rdiv"} /\ rhs.kind # "scalar" THEN "precondition"
   ELSE ResultWhy(res, BinFn(o, op, rhs))
 
-EventWhy(o, ev) == ElemWhy(o, ev.op, ev.args.rhs, ev.ret)
+\* an element-wise operator is a pure function of its operands: the harness reports operands whose arrays differ afterwards
+EventWhy(o, ev) == IF ev.ret.kind = "operand-changed" THEN "operand-changed-by-the-call"
+                   ELSE ElemWhy(o, ev.op, ev.args.rhs, ev.ret)
 
 \* the action: element-wise operations return a new object and leave the receiver unchanged
 Elementwise(op, rhs, res) == ElemWhy(obj, op, rhs, res) = "ok" /\ UNCHANGED obj
